@@ -83,3 +83,20 @@ def _short(d, n=12):
 def loops_with_two_iterations(case):
     """some index variable has extent >= 2 (a loop can run twice)"""
     return any(v >= 2 for v in case["extents"].values())
+
+
+def coords_outside_extent(t, limits):
+    """coordinates (also of zero-valued / empty elements) of model tensor t outside [0, limit) or non-integral; limits per rank id"""
+    bad = []
+
+    def rec(f, lvl, pre):
+        if lvl == len(t.rank_ids) or not isinstance(f, M.Fiber):
+            return
+        lim = limits[lvl]
+        for c, p in f:
+            ok = not isinstance(c, tuple) and c == int(c) and 0 <= c < lim
+            if not ok:
+                bad.append(pre + (c,))
+            rec(p, lvl + 1, pre + (c,))
+    rec(t.root, 0, ())
+    return bad
